@@ -2,9 +2,12 @@
 //! prints one line per case / step (line protocol: DESIGN Appendix A).  The Lean driver reads the same
 //! lines, runs the model and reports divergences and oracle failures.
 mod fnfam;
+#[cfg(feature = "f_registry")]
 mod registry;
 mod rng;
+#[cfg(feature = "f_text")]
 mod text;
+#[cfg(feature = "world")]
 mod world;
 
 use std::io::{BufRead, Write};
@@ -28,6 +31,7 @@ fn main() {
             let mut o = fnfam::Out { w: &mut w, count: 0 };
             fnfam::run_family(&mut o, family, &mut r, n);
         }
+        #[cfg(feature = "world")]
         Some("world") => {
             let family = &args[2];
             let nseq: u64 = args[3].parse().unwrap();
@@ -54,6 +58,7 @@ fn main() {
                     world_lines.push(line.to_string());
                 }
             }
+            #[cfg(feature = "world")]
             if !world_lines.is_empty() {
                 world::replay(&mut w, &world_lines);
             }
